@@ -336,6 +336,24 @@ func gcsMkObject(rng *rand.Rand, i int) (id desync.ChunkID, raw []byte, comp boo
 	return
 }
 
+// gcsWrongDec: what the decompressor makes of the bytes a `wrong` answer carries (gcsfake.go: every byte xor 0x5a)
+func gcsWrongDec(raw []byte, comp bool) string {
+	w := append([]byte{}, raw...)
+	for i := range w {
+		w[i] ^= 0x5a
+	}
+	if len(w) == 0 {
+		w = []byte("x")
+	}
+	if !comp {
+		return "ok:" + hx(w)
+	}
+	if d, err := desync.Decompress(nil, w); err == nil {
+		return "ok:" + hx(d)
+	}
+	return "err"
+}
+
 // gcsScript: answers to successive download requests; at most `slow` entries the client retries with a back-off
 func gcsScript(rng *rand.Rand, rawLen int, slow *int) string {
 	n := rng.Intn(4)
@@ -373,7 +391,7 @@ func runGCSRead(cfg Config, rep *Report, m *Model, rng *rand.Rand) {
 		id, raw, comp, dec, kind := gcsMkObject(rng, i)
 		sc := gcsScript(rng, len(raw), &slow)
 		skip := i%7 == 3
-		line := fmt.Sprintf("gcs.get script=%s id=%s raw=%s dec=%s comp=%d skip=%d alg=sha512", sc, hx(id[:]), hx(raw), dec, b2i(comp), b2i(skip))
+		line := fmt.Sprintf("gcs.get script=%s id=%s raw=%s dec=%s comp=%d skip=%d alg=sha512 wdec=%s", sc, hx(id[:]), hx(raw), dec, b2i(comp), b2i(skip), gcsWrongDec(raw, comp))
 		got := timed(implGcsGet, line)
 		first := "none"
 		if sc != "" {
@@ -396,7 +414,7 @@ func runGCSRead(cfg Config, rep *Report, m *Model, rng *rand.Rand) {
 	for i := 0; i < cfg.N(20, 200); i++ {
 		id, raw, comp, dec, _ := gcsMkObject(rng, i)
 		sc := randScript(rng, []string{"404", "403", "trunc:0", "trunc:1", "trunc:100000", "wrong", "badcrc", "200", "451", "409"}, 5)
-		line := fmt.Sprintf("gcs.get script=%s id=%s raw=%s dec=%s comp=%d skip=%d alg=sha512", sc, hx(id[:]), hx(raw), dec, b2i(comp), i%2)
+		line := fmt.Sprintf("gcs.get script=%s id=%s raw=%s dec=%s comp=%d skip=%d alg=sha512 wdec=%s", sc, hx(id[:]), hx(raw), dec, b2i(comp), i%2, gcsWrongDec(raw, comp))
 		rep.Count(line, true, "gcs.get", "gcs.get/malformed-stream")
 		rep.Compare(m, line, implGcsGet, nil)
 	}
@@ -612,7 +630,7 @@ func runGCSMissingVsFailed(cfg Config, rep *Report, m *Model, rng *rand.Rand) {
 	for i := 0; i < cfg.N(44, 440); i++ {
 		id, raw, comp, dec, kind := gcsMkObject(rng, 6*i) // intact objects
 		sc := scripts[i%len(scripts)]
-		line := fmt.Sprintf("gcs.get script=%s id=%s raw=%s dec=%s comp=%d skip=%d alg=sha512", sc, hx(id[:]), hx(raw), dec, b2i(comp), i%2)
+		line := fmt.Sprintf("gcs.get script=%s id=%s raw=%s dec=%s comp=%d skip=%d alg=sha512 wdec=%s", sc, hx(id[:]), hx(raw), dec, b2i(comp), i%2, gcsWrongDec(raw, comp))
 		got := timed(implGcsGet, line)
 		rep.Count(line, sc != "", "gcs.get", "gcs.get/"+kind, "gcs.get/script="+sc, "gcs.get/result="+strings.SplitN(got, " ", 2)[0])
 		rep.Compare(m, line, implGcsGet, nil)
